@@ -162,7 +162,14 @@ def run(ctx, rep) -> None:
     _step_counter(ctx, rep)
     _wiring(ctx, rep)
     loop_var_leak(ctx, rep, "C01.4", [f"{DS}.{n}" for n in ("_instantiate_steps", "_instantiate_momentum", "_instantiate_filtered_grads", "_instantiate_grafting", "_instantiate_shampoo_preconditioner_list", "_instantiate_distributor", "step")])
-    rep.assume("arithmetic of each recurrence (coefficients, exponents, bias-correction terms, contraction indices) is NOT decided by this check")
+    from .arith import adagrad_arithmetic, factor_arithmetic, inverse_root_wiring, step_arithmetic
+
+    rep.rule("C01.6", "arithmetic of the recurrences: term-valued abstract interpretation of the group step, the diagonal and Kronecker-factor updates and the inverse-root refresh, compared with the documented formulas as exact rational functions over every flag case")
+    step_arithmetic(ctx, rep, "C01.6")
+    adagrad_arithmetic(ctx, rep, "C01.6")
+    factor_arithmetic(ctx, rep, "C01.6")
+    inverse_root_wiring(ctx, rep, "C01.6")
+    rep.assume("C01.6 abstracts every per-block list by one representative element (foreach ops and per-block loops are element-wise over aligned lists: C04.1) and treats matrix routines / tensordot / norms as uninterpreted functions; the numerics inside matrix_inverse_root (C10) and the mode-wise contraction of _precondition_grad are NOT decided")
 
 
 # ------------------------------------------------------------------------------------------------ C01.2
